@@ -203,7 +203,7 @@ Proof. intros. blk. Qed.
 
 Lemma xevents_blk : forall x xl, exists t, blk_ok t [] (xevents N parent gp x xl) = true.
 Proof.
-  intros x [[t a|e]| | |].
+  intros x [[t a|e]| | | |].
   - exists t. destruct a; try (blk; fail).
     + simpl. destruct t; [blk|]. destruct (pc (th (base x) (S t))); try (blk; fail).
       destruct k; try (blk; fail).
@@ -215,6 +215,7 @@ Proof.
   - exists (uci N). blk.
   - exists 0. simpl. destruct (xpend x); blk.
   - exists 0. blk.
+  - exists (uci N). blk.
 Qed.
 
 Lemma xrun_good : forall ls x xf tr, xrun N parent gp x ls = Some (xf, tr) -> good tr /\ atomic_ok tr.
